@@ -27,12 +27,12 @@ pub fn c02_configs(tier: Tier) -> Vec<(Cfg, usize)> {
     // from empty
     let mut c = Cfg::base("c02-empty", 20, 40);
     c.vt = true;
-    v.push((c, d));
+    v.push((c, d + 1));
     // two bars drawn, alignment ops
     let mut c = Cfg::base("c02-two-drawn-align", 20, 40);
     c.root = pre_logs(1, two_drawn());
     c.align = true;
-    v.push((c, d));
+    v.push((c, if tier == Tier::Quick { d + 1 } else { d }));
     // three bars, middle finished (visible) and dropped
     let mut c = Cfg::base("c02-three-mid-zombie", 20, 40);
     c.root = vec![Op::Add, Op::Add, Op::Add, Op::Tick(0), Op::Tick(1), Op::Tick(2), Op::Finish(1), Op::DropBar(1)];
@@ -88,14 +88,14 @@ pub fn c03_configs(tier: Tier) -> Vec<(Cfg, usize)> {
     c.root = pre_logs(3, two_drawn());
     c.inserts = false;
     c.vt = true;
-    v.push((c, d));
+    v.push((c, if tier == Tier::Quick { d + 1 } else { d }));
     // rate limited, limiter exhausted, frozen clock
     let mut c = Cfg::base("c03-hz1-exhausted", 20, 40);
     c.hz = Some(1);
     c.root = pre_logs(3, vec![Op::Add, Op::Add, Op::Tick(0), Op::Tick(1), Op::Burn(0)]);
     c.inserts = false;
     c.limiter_ops = true;
-    v.push((c, d));
+    v.push((c, if tier == Tier::Quick { d + 1 } else { d }));
     // long log lines (wrapping) and bottom alignment
     let mut c = Cfg::base("c03-long-logs-align", 10, 40);
     c.root = pre_logs(2, two_drawn());
@@ -242,7 +242,13 @@ pub fn c19_configs(tier: Tier) -> Vec<(Cfg, usize)> {
         c.msgs = msgs;
         c.vt = tier == Tier::Thorough || (w, h) == (3, 3);
         let depth = match tier {
-            Tier::Quick => 4,
+            Tier::Quick => {
+                if matches!((w, h), (2, 2) | (3, 3) | (5, 3)) {
+                    5
+                } else {
+                    4
+                }
+            }
             Tier::Thorough => {
                 if matches!((w, h), (2, 2) | (3, 3) | (5, 3)) {
                     6
